@@ -531,3 +531,27 @@ Proof.
   intros basis cfg threshold pn2on k2 dfuel2 p0 k dfuel t s w Hs E.
   exact (proj1 (pn2_invariant_gen basis cfg _ threshold pn2on k2 dfuel2 p0 eq_refl Hs _ _ _ _ _ E)).
 Qed.
+
+(* ---------- the verdicts against the history-free attractor (what the retrograde oracle computes) ----------
+   as PnFacts.pn_proven_rules / pn_disproven_attractor, under the same hypothesis PnFacts.equal_congruent *)
+Corollary pn2_proven_rules : forall basis cfg threshold pn2on k2 dfuel2 p0 iters dfuel root s mv why,
+  equal_congruent basis (to_move_white p0) -> size p0 <= 8 ->
+  prove_pn2 basis (to_move_white p0) cfg threshold pn2on k2 dfuel2 iters dfuel p0 = (root, s, 1, mv, why) ->
+  exists k, Wb position pos_equal (succs basis) (terminal (to_move_white p0)) (attp (to_move_white p0)) k [] p0.
+Proof.
+  intros basis cfg threshold pn2on k2 dfuel2 p0 iters dfuel root s mv why Hc Hs E.
+  destruct (pn2_verdict_sound_gen basis cfg _ threshold pn2on k2 dfuel2 p0 eq_refl Hs _ _ _ _ _ _ _ E) as [H _].
+  destruct (H eq_refl) as [[n Hn] _]. exists n. apply truth_equiv_bounded; assumption.
+Qed.
+
+Corollary pn2_disproven_attractor : forall basis cfg threshold pn2on k2 dfuel2 p0 iters dfuel root s mv why,
+  equal_congruent basis (to_move_white p0) -> size p0 <= 8 -> (0 <= pc_maxdepth cfg)%Z ->
+  prove_pn2 basis (to_move_white p0) cfg threshold pn2on k2 dfuel2 iters dfuel p0 = (root, s, 2, mv, why) ->
+  wn position (succs basis) (terminal (to_move_white p0)) (attp (to_move_white p0)) (Z.to_nat (pc_maxdepth cfg)) p0 = false.
+Proof.
+  intros basis cfg threshold pn2on k2 dfuel2 p0 iters dfuel root s mv why Hc Hs Hd E.
+  destruct (pn2_verdict_sound_gen basis cfg _ threshold pn2on k2 dfuel2 p0 eq_refl Hs _ _ _ _ _ _ _ E) as [_ H].
+  specialize (H eq_refl). cbn [L length map] in H.
+  destruct (wn _ _ _ _ (Z.to_nat (pc_maxdepth cfg)) p0) eqn:Ew; [|reflexivity].
+  exfalso. apply H. split; [cbn; lia|]. cbn [Z.of_nat]. rewrite Z.sub_0_r. apply truth_equiv_bounded; assumption.
+Qed.
